@@ -72,7 +72,7 @@ var c19Routes = map[string]c19Route{
 	"sys_stats":     {"GET", func(string) string { return "/system/stats" }, nil},
 }
 
-var c19Names = []string{"main", "main", "main", "other", "nosuch", "", "../../sentinel", "../sentinel", "..", ".", "/tmp/kdsim-abs-escape", "a/b", "a\\b", "..%2f..%2fsentinel", "%2e%2e/%2e%2e/sentinel", strings.Repeat("L", 300), "with space", "nul\x00byte", "uni‮gnp"}
+var c19Names = []string{"main", "main", "main", "other", "nosuch", "", "../../sentinel", "../sentinel", "..", ".", "/tmp/kdsim-abs-escape", "a/b", "a\\b", "tenant/../../sentinel", "a/../../../sentinel", "x/./../..", "main/..", "main/../../sentinel/inner", "..%2f..%2fsentinel", "%2e%2e/%2e%2e/sentinel", strings.Repeat("L", 300), "with space", "nul\x00byte", "uni‮gnp"}
 
 func wrongTypeValue(v any, alt int) any {
 	switch v.(type) {
